@@ -244,6 +244,9 @@ class SMTWTPSpec(SSpec):
             ("smt4-b", dict(job_due_time=[0, 0.5, 0.5, 0.5, 0.5], job_weight=[0, 1, 1, 1, 1], job_process_time=[0, 1, 2, 3, 4])),
             ("smt4-c", dict(job_due_time=[0, 10, 10, 10, 10], job_weight=[0, 1, 2, 3, 4], job_process_time=[0, 1, 1, 1, 1])),
             ("smt3-a", dict(job_due_time=[0, 1, 1, 1], job_weight=[0, 0.5, 0.25, 1], job_process_time=[0, 0.5, 0.25, 1])),
+            # documented lower bounds met with equality: a real job with processing time 0 / weight 0 / due time 0
+            ("smt4-zero", dict(job_due_time=[0, 1, 0, 2, 1], job_weight=[0, 1, 2, 0, 1], job_process_time=[0, 1, 1, 0, 2])),
+            ("smt3-zero-first", dict(job_due_time=[0, 0, 1, 1], job_weight=[0, 1, 1, 1], job_process_time=[0, 0, 0.5, 1])),
         ]
         if tier != "quick":
             out.append(("smt6-a", dict(job_due_time=[0, 1, 2, 3, 2, 1, 4], job_weight=[0, 1, 2, 1, 3, 2, 1], job_process_time=[0, 1, 1, 2, 1, 2, 1])))
